@@ -263,7 +263,7 @@ def variants_for(pid):
         if os.path.exists(m) and not os.path.basename(d).startswith(pid + "-"):
             try:
                 meta = json.load(open(m))
-                if pid in meta.get("caught_by", []): out.append(("seeded/" + os.path.basename(d), os.path.join(d, "patch.diff")))
+                if pid in meta.get("caught_by", []): out.append(("seeded/" + os.path.basename(d) + " (cross)", os.path.join(d, "patch.diff")))
             except Exception: pass
     return out
 
@@ -344,6 +344,9 @@ def selftest(pid, mod, tier_seed=0):
             if newv:
                 res["detected"] += 1
                 res["details"].append({"variant": name, "reported": [v["key"] for v in newv][:4]})
+            elif name.endswith("(cross)"):
+                # a change seeded for another property that this check reported when it was installed: informative only
+                res.setdefault("cross_not_reported", []).append(name)
             else:
                 res["missed"].append(name)
         for name, patch in neutral_fixtures():
